@@ -402,6 +402,13 @@ func (r *CPUSuppress) adjustByCPUSet(cpusetQuantity *resource.Quantity, nodeCPUI
 		cpus = int32(len(oldCPUSet)) + beMaxIncreaseCpuNum
 	}
 	var beCPUSet []int32
+	if len(lsrCpus)+len(lsCpus) <= 0 {
+		// every processor is reserved, exclusive to system QoS or owned by an LSE pod: there is nothing to select
+		// from (and nothing to divide the target by), so leave the BE cpuset alone instead of crashing the agent
+		klog.Warningf("suppressBECPU skipped, no cpu is available for best-effort pods: all %v processors are reserved or exclusive",
+			len(nodeCPUInfo.ProcessorInfos))
+		return
+	}
 	lsrCpuNums := int32(int(cpus) * len(lsrCpus) / (len(lsrCpus) + len(lsCpus)))
 
 	if lsrCpuNums > 0 {
